@@ -4,6 +4,7 @@ package main
 // model), and independence of returned rows under concurrent queries with a poisoned buffer pool.
 
 import (
+	"bytes"
 	"context"
 	"encoding/json"
 	"fmt"
@@ -12,6 +13,7 @@ import (
 	"strconv"
 	"strings"
 	"sync"
+	"time"
 
 	bs "github.com/danthegoodman1/bloomsearch"
 )
@@ -300,6 +302,7 @@ func runC03(c *ctx) {
 	// ---- (b) independence under concurrency with a poisoned pool
 	bs.VerifSetPoison(true)
 	defer bs.VerifSetPoison(false)
+	c03PoolDiscipline(c)
 	for g := 0; g < 3*c.scale; g++ {
 		cfg := bs.DefaultBloomSearchEngineConfig()
 		cfg.RowDataCompression = pick(r, []bs.CompressionType{bs.CompressionNone, bs.CompressionSnappy, bs.CompressionZstd})
@@ -398,6 +401,9 @@ func runC03(c *ctx) {
 		}
 		env.Stop()
 	}
+	if n := bs.VerifScanBufferDoublePuts(); n > 0 {
+		c.r.Hit("c03.pool-double-puts-total")
+	}
 }
 
 // rowID extracts _id; a row whose _id is missing or not a number (possible only when the row's bytes were
@@ -407,4 +413,76 @@ func rowID(row map[string]any) int {
 		return int(f)
 	}
 	return -1
+}
+
+// c03PoolDiscipline (runs with buffer poisoning on): what the engine hands out must not live in a pooled scan
+// buffer that is already back in the pool. (1) The public ReadDataBlockRowData on uncompressed, snappy and zstd
+// blocks: the returned bytes are the block's rows (a slice of a buffer that was put back would be poisoned).
+// (2) Queries whose filter pass needs several region reads (sections stored in reverse order) with the k-th read
+// failing, merges, and queries again: no scan buffer is ever put back twice (two later scans would share it and
+// deliver each other's rows).
+func c03PoolDiscipline(c *ctx) {
+	doubleBefore := bs.VerifScanBufferDoublePuts()
+	for _, comp := range []bs.CompressionType{bs.CompressionNone, bs.CompressionSnappy, bs.CompressionZstd} {
+		cfg := bs.DefaultBloomSearchEngineConfig()
+		cfg.RowDataCompression = comp
+		cfg.MaxBufferedTime = time.Hour
+		cfg.PartitionFunc = partitionFunc("p")
+		env := NewEnv(cfg)
+		want := map[int]bool{}
+		for f := 0; f < 2; f++ {
+			var rows []map[string]any
+			for i := 0; i < 40; i++ {
+				id := f*100 + i + 1
+				want[id] = true
+				rows = append(rows, map[string]any{"_id": id, "p": fmt.Sprint("p", i%2), "pad": strings.Repeat("r", 40)})
+			}
+			env.IngestWait(rows)
+		}
+		check := func(stage string) {
+			files, _ := AllFiles(env.Meta)
+			pub := env.Data.Published()
+			got := map[int]bool{}
+			for _, f := range files {
+				for _, bm := range f.Metadata.DataBlocks {
+					data, err := bs.ReadDataBlockRowData(bytes.NewReader(pub[string(f.PointerBytes)]), &bm)
+					if err != nil {
+						c.r.Add(Finding{Kind: "violation", Check: "row-aliasing", Detail: fmt.Sprintf("%s: ReadDataBlockRowData of a healthy %s block failed with scan-buffer poisoning on: %v", stage, comp, err), Replay: map[string]any{"compression": string(comp)}})
+						continue
+					}
+					// another pooled read in between, as any concurrent scan would do
+					bs.ReadDataBlockBloomFilters(bytes.NewReader(pub[string(f.PointerBytes)]), bm)
+					for _, id := range idsInBytes(data) {
+						got[id] = true
+					}
+				}
+			}
+			c.r.Case(true, fmt.Sprint("pool-discipline ", comp, " ", stage))
+			c.r.Hit("c03.pool-discipline")
+			if len(got) != len(want) {
+				c.r.Add(Finding{Kind: "violation", Check: "row-aliasing", Detail: fmt.Sprintf("%s: the row data returned by ReadDataBlockRowData for %s blocks holds %d of the %d stored rows once released scan buffers are poisoned: it points into a buffer that was already handed back", stage, comp, len(got), len(want)), Replay: map[string]any{"compression": string(comp)}})
+			}
+		}
+		check("after flush")
+		env.Eng.Merge(context.Background())
+		check("after merge")
+		env.Stop()
+	}
+	// (2) failing region reads with a chunk in hand
+	env, _ := dirPop(2, 1, 9, 3)
+	if _, _, ok := reverseSections(env); ok {
+		for k := 1; k <= 8; k++ {
+			eng := freshOver(env, "never")
+			env.Data.SetFaults([]string{"read"}, k)
+			if res, err := eng.Query(context.Background(), bs.NewQuery().Token("needle").Build()); err == nil {
+				drainWatch(res, 10*time.Second)
+				res.Close()
+			}
+			env.Data.ClearFaults()
+		}
+	}
+	c.r.Hit("c03.pool-double-put-watch")
+	if n := bs.VerifScanBufferDoublePuts() - doubleBefore; n > 0 {
+		c.r.Add(Finding{Kind: "violation", Check: "row-aliasing", Detail: fmt.Sprintf("%d times a scan buffer was returned to the pool while it was already in it (queries whose k-th filter region read fails while a chunk is in hand): two later scans are handed the same memory and deliver each other's rows", n), Replay: map[string]any{"scenario": "sections in reverse order, read k = 1..8 fails"}})
+	}
 }
